@@ -70,7 +70,7 @@ func init() {
 func genCases(seed int64, tier string) []core.Case {
 	ncases, per := 96, 60
 	if tier == "thorough" {
-		ncases, per = 800, 150
+		ncases, per = 2400, 150
 	}
 	rng := rand.New(rand.NewSource(seed*104729 + 18))
 	out := make([]core.Case, 0, ncases)
